@@ -1,12 +1,12 @@
 SPECIFICATION Spec
 CONSTANTS
   Cfgs <- MC_CfgsSess
-  Lens <- MC_Lens
-  Ds <- MC_Ds
-  MaxEx = 4
-  MaxFaults = 2
+  Lens <- MC_LensS
+  Ds <- MC_DsS
+  MaxEx = 3
+  MaxFaults = 0
   MaxStepFaults = 2
-  Vs <- MC_VsFixed
+  Vs <- MC_VsStale
   WithRelease = TRUE
   WithTrunc = FALSE
   MaxSess = 2
@@ -16,8 +16,5 @@ INVARIANT OnlyCommErr
 INVARIANT FrameFits
 INVARIANT OneFaultOk
 INVARIANT TargetOk
-INVARIANT PniInSync
-INVARIANT FirstPni
-INVARIANT SessAttr
 VIEW View
 CHECK_DEADLOCK FALSE
